@@ -1,6 +1,6 @@
 (* End to end: replacing one white-space run (between two lexemes) by another that starts with the same character does not change the parse
    tree up to recorded positions - Idl/LexWhite.v (the lexemes) composed with Idl/LayoutFree.v (the parser reads token types and texts only). *)
-From Coq Require Import List String Ascii Bool Arith Lia.
+From Coq Require Import List String Ascii Bool Arith Lia Relations.
 From PDV Require Import Lib.StrUtil Lang.Comment Idl.GrammarDefs Idl.Lexer Idl.ParserG Idl.LayoutFree Idl.LexParseProofs Idl.LexLemmas Idl.LexStable Idl.LexWhite.
 Import ListNotations.
 Open Scope string_scope. Open Scope list_scope.
@@ -82,4 +82,25 @@ Proof.
     as (rest2 & H2 & HT & HE).
   apply (parse_text_layout_free rules prules start _ _ (la ++ rest1) (la ++ rest2)); try assumption.
   now rewrite <- HE.
+Qed.
+
+(* any number of such replacements, in either direction *)
+Inductive run_step (rules : list rule) (nm0 : string) (q : lpat) (pr : ascii -> bool) : string -> string -> Prop :=
+| run_step_intro : forall c w1 w2 y la x rest1,
+    table_ok c rules = true -> others_silent rules nm0 c = true -> pr c = true ->
+    run_len pr w1 = String.length w1 -> run_len pr w2 = String.length w2 -> (match y with EmptyString => true | String a _ => negb (pr a) end) = true ->
+    lex_all rules (x ++ String c (w1 ++ y)) = Some (la ++ rest1) -> concat_lexemes la = x -> no_err la -> has_lex_error (la ++ rest1) = false ->
+    run_step rules nm0 q pr (x ++ String c (w1 ++ y)) (x ++ String c (w2 ++ y)).
+
+Theorem reformatted_same_tree rules prules start nm0 q pr s1 s2 :
+  In (nm0, (true, false, LPlus q)) rules -> single_char q = Some pr ->
+  clos_refl_sym_trans _ (run_step rules nm0 q pr) s1 s2 ->
+  erase_o (parse_text rules prules start s1) = erase_o (parse_text rules prules start s2).
+Proof.
+  intros Hin Es H. induction H as [a b Hab|a|a b _ IH|a b d _ IH1 _ IH2].
+  - destruct Hab as [c w1 w2 y la x rest1 Hok Hsil Hc Hw1 Hw2 Hy HL Hla Hne Herr].
+    exact (skipped_run_same_tree rules prules start nm0 q pr c w1 w2 y la x rest1 Hok Hin Es Hsil Hc Hw1 Hw2 Hy HL Hla Hne Herr).
+  - reflexivity.
+  - symmetry; exact IH.
+  - now rewrite IH1.
 Qed.
